@@ -1,4 +1,5 @@
 """C01 — Mutex: mutual exclusion, visibility, wake pairing, try_lock non-blocking."""
+from ..engine.fold import fold
 from ..engine.prov import const_value, strip_casts, walk, show
 from ..engine.atomics import is_acquire, is_release, target_of
 from . import locks
@@ -158,6 +159,24 @@ def run_one(ck, prog):
                     inner = inner[2]
                 inner = strip_casts(inner)
                 good = isinstance(inner, tuple) and inner[0] == "call" and acq_by_fn[p].get(inner[3], (None,))[0] == "cas"
+            if not good and isinstance(e, tuple) and e[0] == "var" and len(e) > 3:
+                # the same answer written out: `true` is assigned only behind the CAS's Ok edge, `false` only behind its Err edge
+                pairs, _ = locks.acquiring_edges(ctx, acq_by_fn[p], ())
+                err_pairs = set()
+                for sb in ctx.cfg.live_blocks():
+                    if ctx.cfg.term(sb)["k"] != "switch":
+                        continue
+                    for ed in ctx.cfg.succ[sb]:
+                        for f in ctx.edge_facts(ed):
+                            if f[0] == "variant" and f[2] == "Err" and isinstance(strip_casts(f[1]), tuple) and strip_casts(f[1])[0] == "call" and acq_by_fn[p].get(strip_casts(f[1])[3], (None,))[0] == "cas":
+                                err_pairs.add((ed.src, ed.dst))
+                good = bool(e[3])
+                for (db, di) in e[3]:
+                    blk = ctx.cfg.block(db)
+                    v = fold(ctx.prov.rvalue(blk["stmts"][di]["rv"], (db, di))) if isinstance(di, int) and di < len(blk["stmts"]) else None
+                    edges = pairs if v in (1, True) else err_pairs if v in (0, False) and v is not None else set()
+                    if not any(ed.src == a and ed.dst == b2 and ctx.cfg.edge_dominates(ed, db) for a, b2 in edges for ed in ctx.cfg.succ[a]):
+                        good = False
             ok = ok and bool(good)
         if ok:
             bool_acq.add(p)
